@@ -336,5 +336,5 @@ def run_case(spec, ctx):
 META = {
     "level_text": "Exploration: the real prox functions are run on seeded hostile inputs (dimension 1-4, magnitudes 1e-12..1e12, z of both signs and 0) and every return value is decided by the closed-form projection, the variational inequality and finite differences of the residual; held on the inputs generated, not a proof.",
     "level_note": "float64 inputs only; Jacobian compared away from the active-set boundary (relative distance 1e-3); reference = closed-form projection and dense numpy solve.",
-    "technique": "runtime return-value monitors with closed-form reference model and finite-difference oracle",
+    "technique": "runtime return-value monitors with closed-form reference model and finite-difference oracle + representation twins",
 }
